@@ -177,6 +177,11 @@ func (a Alphabet) allIDs() []string {
 }
 
 func (a Alphabet) nodeTypeOf(id string, r *rt.Rand) int {
+	if r.Intn(8) == 0 {
+		// an id is not tied to a node type: re-registering it may change what kind of node it names, and a
+		// pipeline definition that was well-formed may no longer be (the model reads the type off the object)
+		return int(rt.Pick(r, []eventlogger.NodeType{eventlogger.NodeTypeFilter, eventlogger.NodeTypeFormatter, eventlogger.NodeTypeFormatterFilter, eventlogger.NodeTypeSink}))
+	}
 	for _, x := range a.Filters {
 		if x == id {
 			return int(eventlogger.NodeTypeFilter)
